@@ -281,6 +281,11 @@ func (d *driver) secretOfClient(id string) string {
 }
 
 func (d *driver) symRedirect(v string) string {
+	if c := d.curCheck(); c != nil {
+		if f := d.env.fspec[c.f]; f != nil && callbackURI(f) == v {
+			return "cb:" + f.Name
+		}
+	}
 	for _, f := range d.env.spec.Filters {
 		if callbackURI(&f) == v {
 			return "cb:" + f.Name
@@ -289,7 +294,18 @@ func (d *driver) symRedirect(v string) string {
 	return "cb:unknown"
 }
 
-func callbackURI(f *FilterSpec) string { return "https://" + appHost + "/" + f.Name + "/callback" }
+func (d *driver) curCheck() *checkRun {
+	d.mu.Lock()
+	defer d.mu.Unlock()
+	return d.cur
+}
+
+func callbackURI(f *FilterSpec) string {
+	if f.SharedCallback {
+		return "https://" + appHost + "/shared/callback"
+	}
+	return "https://" + appHost + "/" + f.Name + "/callback"
+}
 func logoutPath(f *FilterSpec) string {
 	if f.InheritLogout && f.inheritedLogoutPath != "" {
 		return f.inheritedLogoutPath
@@ -782,7 +798,7 @@ func (d *driver) prepare(st *Step) (*checkRun, *envoy.CheckRequest) {
 			}
 		}
 		q, states, codes := callbackQuery(st.QShape, stateVal, codeVal, stateSym, codeSym)
-		path = "/" + f.Name + "/callback"
+		path = strings.TrimPrefix(callbackURI(f), "https://"+appHost)
 		if q != "\x00" {
 			path += "?" + q
 		}
